@@ -703,9 +703,14 @@ fn drop_obj(cfg: &Cfg) {
     let g = Gate::new();
     let bg = BGate::new();
     let mut pre_threads = vec![];
+    let mut held = None;
     match state {
         0 => {
             w.desync(&o, "D", Body::plain());
+        }
+        6 => {
+            // a future operation whose future is polled once (dropper 4) by a task whose waker owns the last reference
+            held = Some(w.future_desync(&o, "FD", Body::gated(&g)));
         }
         1 => {
             w.desync(&o, "Dblk", Body::blocking(&bg));
@@ -765,7 +770,48 @@ fn drop_obj(cfg: &Cfg) {
             }
         }
     }
+    let mut kept_future = None;
+    let mut late_release = None;
     match dropper {
+        4 => {
+            // cancel-on-wake: the task's waker holds the last owner and releases it, on whatever thread delivers the wake-up,
+            // the first time it is woken; the future itself is kept and not polled again until everything has gone quiet
+            struct DropOnWake(std::sync::Mutex<Option<Box<dyn FnOnce() + Send>>>);
+            impl futures::task::ArcWake for DropOnWake {
+                fn wake_by_ref(a: &Arc<Self>) {
+                    // (a wake-up delivered by a pool thread comes from the runner of this very queue, as part of finishing the
+                    // operation: releasing the last owner there is "from inside one of the object's own operations", which is
+                    // excluded; that wake-up is ignored and the environment thread's wake-up, or the end of the run, releases)
+                    if rt::current_thread_name().as_deref() == Some(POOL_NAME) {
+                        return;
+                    }
+                    let f = a.0.lock().unwrap().take();
+                    if let Some(f) = f {
+                        f();
+                    }
+                }
+            }
+            let release: Box<dyn FnOnce() + Send> = Box::new(move || {
+                let dop = rec.inv("DROP", st.id, Kind::Drop);
+                drop(o);
+                rec.start(dop);
+                rec.end(dop, false);
+                rec.ret(dop);
+                check_after_drop(&rec);
+            });
+            let dow = Arc::new(DropOnWake(std::sync::Mutex::new(Some(release))));
+            late_release = Some(dow.clone());
+            let waker = futures::task::waker(dow);
+            let mut h = held.take().expect("dropper=4 needs state=6");
+            let mut f = Box::pin(h.fut.take().unwrap());
+            let mut cx = futures::task::Context::from_waker(&waker);
+            use std::future::Future;
+            match f.as_mut().poll(&mut cx) {
+                futures::task::Poll::Ready(_) => rt::violation("FUTURE-RESULT FD resolved before its event".into()),
+                _ => kept_future = Some((f, h.token)),
+            }
+            drop(waker);
+        }
         0 => {
             hs.push(spawn(move || {
                 let dop = rec.inv("DROP", st.id, Kind::Drop);
@@ -825,6 +871,19 @@ fn drop_obj(cfg: &Cfg) {
         join(h, &format!("waiter{}", i));
     }
     rt::quiesce();
+    if let Some(dow) = late_release {
+        // no wake-up reached the waker from outside the object's own runner: the owner is released now
+        futures::task::ArcWake::wake_by_ref(&dow);
+        rt::quiesce();
+    }
+    if let Some((f, token)) = kept_future {
+        let prev = rt::note("in:await-fd FD");
+        let r = block_on(f);
+        rt::note(&prev);
+        if r != Ok(token) {
+            rt::violation("FUTURE-RESULT FD (polled once, awaited after the object was dropped) resolved to the wrong value".into());
+        }
+    }
     if pool == 0 {
         w.sync(&helper, "kick", Body::plain());
     }
@@ -979,6 +1038,22 @@ fn panic_contain(cfg: &Cfg) {
             let t = spawn(move || { w1.sync(&b1, "S-behind-BOOM", Body::plain()); });
             let _ = t.join();
         }
+        5 => {
+            // a caller holds the queue inside sync; the panicking job is queued behind it; a second sync caller blocks, is handed
+            // the queue when the first returns (no pool thread) and runs the panicking job itself: it unwinds with its own job
+            // (a borrowed closure) still queued behind
+            let bg = BGate::new();
+            let (w1, b1, bg1) = (w.clone(), bad.clone(), bg.clone());
+            let holder = spawn(move || { w1.sync(&b1, "HOLD", Body::blocking(&bg1)); });
+            rt::quiesce();
+            w.desync(&bad, "BOOM", Body::panicking());
+            let (w1, b1) = (w.clone(), bad.clone());
+            let t = spawn(move || { w1.sync(&b1, "S-behind-BOOM", Body::plain()); });
+            rt::quiesce();
+            bg.open();
+            join(holder, "holder");
+            let _ = t.join();
+        }
         _ => {
             w.future_desync(&bad, "BOOM-FD", Body { panic: true, self_wake, ..Body::default() }).detach();
         }
@@ -989,7 +1064,7 @@ fn panic_contain(cfg: &Cfg) {
     let boom_ran = w.rec.all().iter().any(|r| r.name.starts_with("BOOM") && !r.starts.is_empty());
     if !boom_ran {
         // (only possible with no pool threads and nobody draining)
-        if pool > 0 || ctx == 1 || ctx == 2 || ctx == 4 {
+        if pool > 0 || ctx == 1 || ctx == 2 || ctx == 4 || ctx == 5 {
             rt::violation("STRANDED the panicking operation never ran".into());
         }
     } else {
